@@ -42,7 +42,7 @@ def _pol(full_depth, sample_k, max_depth, p_ro, cs_cap=None):
 
 PLANS = {
     "quick": [
-        ("MC_Alignment_quick.cfg", {"all": _pol(1, 1, 2, 0.04), "picked": _pol(2, 0, 2, 0.04)}),
+        ("MC_Alignment_quick.cfg", {"all": _pol(1, 1, 2, 0.025), "picked": _pol(2, 0, 2, 0.025)}),
     ],
     "thorough": [
         ("MC_Alignment_thorough.cfg", {"all": _pol(1, 2, 3, 0.05), "picked": _pol(2, 0, 2, 0.05), "picked:protein": _pol(1, 6, 3, 0.05)}),
